@@ -5,7 +5,21 @@ sys.path.insert(0, os.path.dirname(os.path.abspath(__file__)))
 sys.path.insert(0, os.environ.get('VERIF_REPO', '/repo'))
 import vlib
 
+def limit_memory():
+    """An address-space ceiling for this process and its children (coqc): a change to the library that makes some call allocate without bound
+    (seeded change C05d: a cached token list extended in place on every call) then raises MemoryError inside the call - an observation the
+    oracle judges - instead of the whole check being killed by the kernel with no verdict. VERIF_MEM_GB overrides the 12 GB default."""
+    try:
+        import resource
+        cap = int(float(os.environ.get('VERIF_MEM_GB', '12')) * (1 << 30))
+        soft, hard = resource.getrlimit(resource.RLIMIT_AS)
+        if hard == resource.RLIM_INFINITY or cap < hard:
+            resource.setrlimit(resource.RLIMIT_AS, (cap, hard))
+    except Exception:
+        pass
+
 def main():
+    limit_memory()
     ap = argparse.ArgumentParser()
     ap.add_argument('prop')
     ap.add_argument('--tier', default=os.environ.get('VERIF_TIER', 'quick'), choices=['quick', 'thorough'])
